@@ -1976,7 +1976,7 @@ def tier_c(run, thorough):
 # =====================================================================================================
 # dimension sweeps (tools/SWEEP_BRIEF.md): the same clauses, inputs varied along further dimensions
 # =====================================================================================================
-UNIT_PAIRS = [(1e-12, 1.0), (1.0, 1e-20), (1e8, 1e-12), (1e12, 1e12)]
+UNIT_PAIRS = [(1e-12, 1.0), (1.0, 1e-20), (1e8, 1e-12), (1e-20, 1e12)]
 # input classes that fail on the unchanged tree and wait for triage (see the module docstring); True = registered
 PENDING_UNITS_WHITENED = False
 PENDING_UNITS_NN = False
